@@ -864,6 +864,7 @@ pub fn gen_table_case(rng: &mut Rng, st: &mut Stats, max_ops: usize, big_cycle: 
             2,
             if lsn_slots.is_empty() { 0 } else { zombie_w },
             if lsn_slots.is_empty() { 0 } else { zombie_w / 2 },
+            zombie_w / 2,
         ];
         match rng.weighted(&ws) {
             0 => {
@@ -992,6 +993,41 @@ pub fn gen_table_case(rng: &mut Rng, st: &mut Stats, max_ops: usize, big_cycle: 
                     }
                 }
             }
+            12 => {
+                // `0.0.0.0:p` and `[::]:p` both listening, a half-open child of each family,
+                // one listener closed, accept on the other
+                let both: Vec<usize> = (0..nh)
+                    .filter(|h| first_of_family(&addrs[*h], false).is_some() && first_of_family(&addrs[*h], true).is_some())
+                    .collect();
+                if !both.is_empty() {
+                    let h = *rng.pick(&both);
+                    let port = *rng.pick(&[7100u16, 7101, 80, 5001]);
+                    let (s4, s6) = (next_slot, next_slot + 1);
+                    next_slot += 2;
+                    let o4 = out.step(&mut w, st, Op::TListen { h, s: s4, ip: Ip::v4(0), port });
+                    let o6 = out.step(&mut w, st, Op::TListen { h, s: s6, ip: Ip::v6(0), port });
+                    if o4.starts_with("ok") && o6.starts_with("ok") {
+                        let a4 = first_of_family(&addrs[h], false).unwrap();
+                        let a6 = first_of_family(&addrs[h], true).unwrap();
+                        for (src, dst) in [(Ip::v4(90), a4), (Ip::v6(90), a6), (Ip::v4(90), a4)] {
+                            if rng.chance(3, 4) {
+                                mid_sport += 1;
+                                out.step(&mut w, st, Op::InjectSyn { src, sport: mid_sport, dst, dport: port });
+                            }
+                        }
+                        let (closed, kept) = if rng.chance(1, 2) { (s4, s6) } else { (s6, s4) };
+                        out.step(&mut w, st, Op::Close { h, s: closed });
+                        out.step(&mut w, st, Op::Netstat);
+                        let ns = next_slot;
+                        next_slot += 1;
+                        out.step(&mut w, st, Op::Accept { h, s: kept, ns });
+                        if rng.chance(1, 2) {
+                            out.step(&mut w, st, Op::Close { h, s: kept });
+                            out.step(&mut w, st, Op::Netstat);
+                        }
+                    }
+                }
+            }
             _ => {
                 // a stray SYN answered by a listener, then reset by its sender
                 let (ls, lh) = *rng.pick(&lsn_slots);
@@ -1001,7 +1037,9 @@ pub fn gen_table_case(rng: &mut Rng, st: &mut Stats, max_ops: usize, big_cycle: 
                         let src = Ip { v6: dst.v6, n: 90 };
                         mid_sport += 1;
                         let obs = out.step(&mut w, st, Op::InjectSyn { src, sport: mid_sport, dst, dport: lport });
-                        if obs.contains("/SA/") {
+                        if obs.contains("/SA/") && rng.chance(1, 3) {
+                            // leave the child half-open: it retransmits its SYN-ACK and times out
+                        } else if obs.contains("/SA/") {
                             out.step(&mut w, st, Op::InjectRst { src, sport: mid_sport, dst, dport: lport });
                             if rng.chance(1, 2) {
                                 out.step(&mut w, st, Op::Close { h: lh, s: ls });
